@@ -201,6 +201,13 @@ def run(tier):
         # ... and two that are JSON documents in an unusual transport form
         ("200 small schema, trailing whitespace", {"kind": "reply", "status": 200, "body": schemas["small"][1].encode() + b" \r\n\t\n", "schema": "small"}),
         ("200 small schema, chunked", {"kind": "reply", "status": 200, "body": b"", "schema": "small", "raw": chunked(schemas["small"][1].encode())}),
+        # the body's bytes are UTF-8 JSON whatever a charset parameter claims; bytes that are not UTF-8 are not JSON
+        ("200 small schema, content-type says charset=ISO-8859-1", {"kind": "reply", "status": 200, "body": schemas["small"][1].encode(), "schema": "small",
+                                                                     "ctype": "application/json; charset=ISO-8859-1"}),
+        ("200 small schema, content-type says charset=utf-16", {"kind": "reply", "status": 200, "body": schemas["small"][1].encode(), "schema": "small",
+                                                                 "ctype": "application/json;charset=utf-16"}),
+        ("200 small schema, UTF-8 BOM in front", {"kind": "reply", "status": 200, "body": b"\xef\xbb\xbf" + schemas["small"][1].encode()}),
+        ("200 invalid UTF-8 inside a JSON string", {"kind": "reply", "status": 200, "body": schemas["small"][1].encode().replace(b"\xc3\xa9", b"\xff\xfe", 1)}),
         ("204 no content", {"kind": "reply", "status": 204, "body": b""}),
         ("400 json body", {"kind": "reply", "status": 400, "body": b'{"errors":[{"message":"bad"}]}'}),
         ("401 text body", {"kind": "reply", "status": 401, "body": b"unauthorized", "ctype": "text/plain"}),
@@ -379,7 +386,7 @@ def run(tier):
     cov = {
         "evaluations": len(cases), "distinct_nontrivial": len(distinct),
         "rule": "request model: {is-one-of} x {specify-by-url} x {authorization} x {no headers, two headers}; every header string of "
-                "the alphabet 5 names x 3 separators x 7 values (incl. commas, semicolons, quotes, further colons) (and 4 pairs) with an existing output file; behaviours: 26 scripted "
+                "the alphabet 5 names x 3 separators x 7 values (incl. commas, semicolons, quotes, further colons) (and 4 pairs) with an existing output file; behaviours: 30 scripted "
                 "replies x {stdout, new file, existing file}; connection closed after k bytes for every k of a 200 reply with "
                 "content-length (%s). distinct = (flags, headers, output placement, server behaviour)" %
                 ("output = existing file" if tier == "quick" else "all three output placements"),
